@@ -612,6 +612,8 @@ def run(ctx):
             cases.append(dict(random_variant(rng), events=ev, same=[int(rng.random() < 0.7) for _ in range(nframes_of(ev))]))
     if ctx.get("max_cases"):
         cases = cases[:ctx["max_cases"]]
+    import c10_cancel  # the creating task cancelled while the class loading is pending (first: a process-wide import cache is still empty)
+    c10_cancel.run_section(res, rng, ctx["tier"])
     evaluate(res, cases)
     return res
 
@@ -621,6 +623,10 @@ def replay(ctx):
     inp = f["input"]
     res = Result("C10")
     res.rule = "replay of one recorded schedule"
+    if "cancel_history" in inp:
+        import c10_cancel
+        c10_cancel.run_section(res, random.Random(0), "quick", only=[inp["cancel_history"]])
+        return res
     evaluate(res, [dict(consumers=inp["consumers"], cbsusp=inp.get("cbsusp", 0), route=inp.get("route", "get"), conn=bool(inp.get("conn")),
                         events=inp.get("requested") or inp["events"], same=inp.get("same"))])
     return res
